@@ -173,6 +173,9 @@ func main() {
 	for i := 0; i < nOff+nOn; i++ {
 		r := cv.NewRand(uint64(1000 + i))
 		cfg := walletCfg{Listener: i >= nOff, Regex: r.Intn(3) == 0, Format: formats[r.Intn(len(formats))]}
+		if len(st.ImplFailures) >= 12 {
+			break // broken beyond doubt: do not spend the time budget on more of the same
+		}
 		writeCurrent(*out, map[string]interface{}{"kind": "history", "index": i, "config": cfg})
 		term, desc, fails, nt := runHistory(r, cfg, pool, &slow, st)
 		for _, f := range fails {
@@ -246,6 +249,9 @@ func main() {
 			o = ops / 2
 		}
 		cfg := stressCfg{G: c.g, Procs: c.procs, Listener: c.listener, Format: c.format, Ops: o, CloseEarly: c.early, Stream: uint64(5000 + i), Seed: cv.Seed()}
+		if len(st.ImplFailures) >= 16 {
+			break
+		}
 		writeCurrent(*out, map[string]interface{}{"kind": "stress", "config": cfg})
 		res := runStress(cfg, pool)
 		runs++
